@@ -136,7 +136,9 @@ def finish(pid, tier, seed, reg, results, wall):
         h = sha256_of_lines(r["file"], r["lines"][0], r["lines"][1])
         ent = inventory.get(fv)
         if ent and ent.get("sha256") == h:
-            missing = set(ent["obligations"]) - by_fv.get(fv, set())
+            # executor-internal side obligations (model_limit: chosen bit widths etc.) depend on what the time-limited path solver can
+            # prune, so their presence may vary between runs: not part of the shrinkage guard
+            missing = {o for o in set(ent["obligations"]) - by_fv.get(fv, set()) if ":model_limit:" not in o}
             if missing and r["status"] == "ok":
                 inv_problems.append("%s: %d obligations of the baseline inventory were not generated (%s ...)" % (fv, len(missing), sorted(missing)[0]))
     # ---- which (function, variant)s were verified against CHANGED source text (w.r.t. the committed baseline inventory)?
